@@ -240,7 +240,7 @@ def conclude(prop, tier, seed, mon, results, findings, infra, t0, out, write_evi
     elif inconc > max(2, 0.02 * n):
         unmet.append(f"inconclusive={inconc}/{n}")
     # replay files: one per distinct mechanism (clause, direction, features)
-    replay_dir = os.path.join(ROOT, "replays", prop)
+    replay_dir = os.path.join(os.environ.get("RTMON_REPLAY_DIR") or os.path.join(ROOT, "replays"), prop)
     lines = []
     mech = {}
     for r, unknown in new_viol:
@@ -256,7 +256,7 @@ def conclude(prop, tier, seed, mon, results, findings, infra, t0, out, write_evi
         with open(path, "w") as f:
             json.dump({"property": prop, "tier": tier, "seed": seed, "case": r.get("case"),
                        "violations": [v0], "observed": r.get("observed")}, f, indent=1, default=str)
-        lines.append(f"VIOLATION property={prop} replay={os.path.relpath(path, ROOT)} "
+        lines.append(f"VIOLATION property={prop} replay={os.path.relpath(path, ROOT) if path.startswith(ROOT) else path} "
                      f"clause={v0['clause']} direction={v0.get('direction')} "
                      f"features={mk[2]} cases={m['count']}")
     wall = time.time() - t0
@@ -290,8 +290,9 @@ def conclude(prop, tier, seed, mon, results, findings, infra, t0, out, write_evi
         "violations": len(new_viol),
     }
     if write_evidence:
-        os.makedirs(os.path.join(ROOT, "evidence"), exist_ok=True)
-        with open(os.path.join(ROOT, "evidence", f"{prop}.json"), "w") as f:
+        evdir = os.environ.get("RTMON_EVIDENCE_DIR") or os.path.join(ROOT, "evidence")
+        os.makedirs(evdir, exist_ok=True)
+        with open(os.path.join(evdir, f"{prop}.json"), "w") as f:
             json.dump(ev, f, indent=1, default=str)
     for key, kh in sorted(known_hit.items()):
         out.write(f"KNOWN-FINDING: property={prop} {key}: {kh['what']} (seen {kh['count']}x)\n")
